@@ -294,3 +294,44 @@ REGISTRY["C19"] = {
         K("c19::c19_flowkey_affinity", "all IPv4/IPv6 source pairs, both affinity modes; unwind 18", "equal keys <=> equal ip (and port when keyed on it); key keeps the client's ip; port zeroed otherwise", UF, min_covers=2),
     ],
 }
+
+_c07 = "patch fully symbolic (every Option discriminant / payload free); BTreeMap::get_mut, validators, merge_custom_http_answers uninterpreted with arbitrary results; loops unrolled twice"
+_c07claim = ("(a) no store through the listener reference on any path that returns Err; (b) every store writes the payload of the same-named patch field and only when that field is Some; "
+             "(c) no listener field is written from a differently named patch field")
+REGISTRY["C07"] = {
+    "engine": "mir",
+    "technique": "symbolic execution of the MIR of ConfigState::update_*_listener into SMT (z3 + cvc5): write events vs. Err return paths",
+    "level_text": "For the four private listener-patch functions, every path of the real compiled MIR is encoded (guards merged at joins) with the patch fully symbolic and all callees uninterpreted; z3 and cvc5 both decide that no path returning Err contains a store through the listener reference (validate-then-mutate), that each store copies the same-named patch field and only when it is Some, and that no patch field is dropped. This is the whole function body, not a sample of patches; it is bounded only by loop unrolling (2) and by treating callees as arbitrary.",
+    "level_note": "Certificate add/replace partial effects (x509 + nested HashMap), the master's hash_state no-op check and worker-side notify-after-error are outside the claim. Aliasing between the listener reference and other places is assumed absent (it is a fresh get_mut result).",
+    "rule": "C07: one obligation per update_*_listener function.",
+    "trusted_base": ["field-name tables parsed from command/src/proto/command.rs (prost output, declaration order == MIR field index)"],
+    "assumptions": ["uninterpreted callees do not write the listener unless they are handed a &mut into it (then they count as a write)"],
+    "residual": "add_certificate / replace_certificate partial effects, master/worker drift, rejected commands other than listener patches.",
+    "obligations": [
+        M("c07_update_http_listener_atomic", _c07, _c07claim, ["command/src/state.rs"], prop="c07_atomic", mode="atomic", fn_suffix="::update_http_listener",
+          listener_struct="HttpListenerConfig", patch_struct="UpdateHttpListenerConfig", replay_filter="http_patch"),
+        M("c07_update_https_listener_atomic", _c07, _c07claim, ["command/src/state.rs"], prop="c07_atomic", mode="atomic", fn_suffix="::update_https_listener",
+          listener_struct="HttpsListenerConfig", patch_struct="UpdateHttpsListenerConfig", replay_filter="https_patch"),
+        M("c07_update_tcp_listener_atomic", _c07, _c07claim, ["command/src/state.rs"], prop="c07_atomic", mode="atomic", fn_suffix="::update_tcp_listener",
+          listener_struct="TcpListenerConfig", patch_struct="UpdateTcpListenerConfig"),
+        M("c07_update_udp_listener_atomic", _c07, _c07claim, ["command/src/state.rs"], prop="c07_atomic", mode="atomic", fn_suffix="::update_udp_listener",
+          listener_struct="UdpListenerConfig", patch_struct="UpdateUdpListenerConfig"),
+    ],
+}
+
+BS = ["bin/src/command/server.rs", "bin/src/command/requests.rs"]
+REGISTRY["C09"] = {
+    "engine": "mir",
+    "technique": "symbolic execution of the MIR of the master's task-finishing functions into SMT (z3 + cvc5): flag propagation, verdict function, response accounting",
+    "level_text": "The real compiled MIR of CommandHub::handle_finishing_task, WorkerTask::on_finish and DefaultGatherer::on_message is executed symbolically with every callee uninterpreted; z3 and cvc5 both decide that (1) the timed_out flag that reaches GatheringTask::on_finish equals the flag the run loop passed, on every path, and on_finish is called exactly once; (2) finish_ok is reached only with errors == 0 and not timed out, finish_failure only with a reason, and every returning path answers the client exactly once; (3) one worker message advances at most one terminal counter, by exactly one, and is archived exactly once. Composition of (1) and (2) is the property's 'silent worker => failure'.",
+    "level_note": "Single functions; the run loop's deadline test, scatter_on's in-flight registration, worker close handling and interleavings of several clients are HashMap/mio state and are outside the claim. WorkerTask::on_finish's response-log loop is unrolled twice (its body only builds message strings).",
+    "rule": "C09: one obligation per function.",
+    "trusted_base": [],
+    "assumptions": ["uninterpreted callees (audit emission, string building, client channel writes) do not change errors / timed_out"],
+    "residual": "run loop scheduling, scatter_on registering one in-flight id per live worker, late/duplicate answers after in_flight purge, worker disconnect, hub liveness, other GatheringTask implementations (query / load-state / status tasks).",
+    "obligations": [
+        M("c09_timeout_flag_propagates", "whole function, all paths; callees uninterpreted", "the flag operand of GatheringTask::on_finish equals the timed_out parameter on every path; on_finish is reached on every returning path", BS[:1], prop="c09", which="flag"),
+        M("c09_verdict_function", "whole function; response loop unrolled 2x; callees uninterpreted", "finish_ok => errors == 0 and not timed_out; finish_failure => errors > 0 or timed_out; exactly one of them on every returning path", BS[1:], prop="c09", which="verdict"),
+        M("c09_gatherer_accounting", "whole function; arbitrary counters and status", "at most one of ok/errors is written per message, each as old+1; the message is pushed to the response log on every path", BS[:1], prop="c09", which="gatherer"),
+    ],
+}
